@@ -37,6 +37,8 @@ const (
 	c11Depth3SampleQuick = 20000 // trees of the depth<=3 enumeration that are run in tier quick
 	c11RandomQuick       = 3000  // random deeper trees
 	c11RandomThorough    = 50000
+	c11CoqPairsQuick     = 3000 // texts of the PAIRS family that become Coq cases in tier quick (thorough: all)
+	c11CoqSeq3RejQuick   = 1500 // rejected length-3 sequences -> Coq in tier quick (thorough: all)
 	c11CoqTreeTextsQuick = 2000 // texts of depth<=3 / random trees that become Coq cases
 	c11CoqTreeTextsThor  = 12000
 	c11CoqSeqAccQuick    = 2000  // accepted length-5 sequences -> Coq
@@ -2140,9 +2142,17 @@ func runC11() {
 	}
 
 	// ---- (i) trees
+	var pairTexts []string
 	for _, tr := range c11genPairs() {
-		for _, s := range c.runTree("pairs", tr, true) {
+		pairTexts = append(pairTexts, c.runTree("pairs", tr, true)...)
+	}
+	if thorough || len(pairTexts) <= c11CoqPairsQuick {
+		for _, s := range pairTexts {
 			c.toCoq("pairs", s)
+		}
+	} else {
+		for _, i := range rng.Perm(len(pairTexts))[:c11CoqPairsQuick] {
+			c.toCoq("pairs", pairTexts[i])
 		}
 	}
 	for _, tr := range c11genBadRe() {
@@ -2253,9 +2263,27 @@ func runC11() {
 		rep.Histogram[fmt.Sprintf("seq len %d accepted", n)] = acc
 		rep.Histogram[fmt.Sprintf("seq len %d rejected", n)] = rej
 	}
-	for n := 1; n <= 3; n++ {
+	for n := 1; n <= 2; n++ {
 		for idx := int64(0); idx < c11pow20(n); idx++ {
-			c.toCoq("seq<=3", c11seqText(n, idx))
+			c.toCoq("seq<=2", c11seqText(n, idx))
+		}
+	}
+	if thorough {
+		for idx := int64(0); idx < c11pow20(3); idx++ {
+			c.toCoq("seq3", c11seqText(3, idx))
+		}
+	} else {
+		acc3 := map[uint32]bool{}
+		for _, idx := range accByLen[3] {
+			acc3[idx] = true
+			c.toCoq("seq3-accepted", c11seqText(3, int64(idx)))
+		}
+		for got, tries := 0, 0; got < c11CoqSeq3RejQuick && tries < 50*c11CoqSeq3RejQuick; tries++ {
+			idx := rng.Int63n(c11pow20(3))
+			if !acc3[uint32(idx)] {
+				c.toCoq("seq3-rejected", c11seqText(3, idx))
+				got++
+			}
 		}
 	}
 	for _, idx := range accByLen[4] {
@@ -2324,7 +2352,7 @@ func runC11() {
 		"tree it was printed from; every parenthesis the rules call required is also left out once (the tree must change). "+
 		"distinct_nontrivial counts distinct input texts whose expected (reference) tree has an operator node (unary, binary, matches, conditional, property, method, index, slice) "+
 		"with an OPERAND (operand, condition/branch, or chain base; not bracketed arguments) that is itself such a node; rejected inputs and single-operator inputs are not counted. "+
-		"Coq cases: all PAIRS texts, all sequences of length <= 3, all accepted sequences of length 4, seeded samples of the rest.",
+		"Coq cases: all sequences of length <= 2, all accepted sequences of length 3 and 4, seeded samples of the PAIRS texts and of the rest (tier thorough: all PAIRS texts and all sequences of length <= 3).",
 		c.maxSeq, map[bool]string{true: "EXHAUSTIVE", false: fmt.Sprintf("SAMPLED in tier quick (%d by seeded index; exhaustive in tier thorough)", c11Depth3SampleQuick)}[thorough || len(deep) <= c11Depth3SampleQuick],
 		len(small)+len(deep), c11Depth3Cap, nrand)
 	fams := make([]string, 0, len(c.samples))
